@@ -134,10 +134,16 @@ func NewParsePacket(data []byte) (*ParsePacket, error) {
 	// convert to absolute
 	endIndex += startIndex + 1
 	query := data[startIndex:endIndex]
+	if len(data) < endIndex+2 {
+		return nil, ErrPacketTruncated
+	}
 	numParams := paramsNum(data[endIndex : endIndex+2])
 	endIndex += 2
 	var params []objectID
 	if endIndex < len(data) {
+		if len(data)-endIndex < 4*numParams.ToInt() {
+			return nil, ErrPacketTruncated
+		}
 		for i := 0; i < numParams.ToInt(); i++ {
 			params = append(params, data[endIndex:endIndex+4])
 			endIndex += 4
